@@ -28,6 +28,7 @@ import (
 	"fmt"
 	"reflect"
 	"strings"
+	"sync"
 
 	"github.com/creachadair/jrpc2"
 	"github.com/creachadair/jrpc2/handler"
@@ -36,7 +37,9 @@ import (
 func init() { commands["c15"] = runC15 }
 
 type recorder struct {
-	calls [][]string
+	mu    sync.Mutex
+	calls [][]string         // calls made without a call id in the context (single / sequence)
+	byID  map[int][][]string // concurrent cases: calls by the id carried in the context
 	req   *jrpc2.Request
 	res   reflect.Value // the sample result the function returns
 	err   error         // the error the function returns (nil or errPlanned)
@@ -121,13 +124,35 @@ func makeFn(fd *fndesc, rec *recorder, retErr bool) any {
 			}
 			enc = append(enc, hexf(encValue(a)))
 		}
-		rec.calls = append(rec.calls, enc)
+		id := -1
+		if len(args) > 0 && args[0].Type() == hCtxType && !args[0].IsNil() {
+			if v, ok := args[0].Interface().(context.Context).Value(callKey{}).(int); ok {
+				id = v
+			}
+		}
+		if id >= 0 {
+			rec.mu.Lock()
+			rec.byID[id] = append(rec.byID[id], enc)
+			rec.mu.Unlock()
+		} else {
+			rec.calls = append(rec.calls, enc)
+		}
 		return rets
 	}).Interface()
 }
 
-func (rec *recorder) observe(res any, herr error) string {
-	if len(rec.calls) == 0 {
+func (rec *recorder) take(id int) [][]string {
+	rec.mu.Lock()
+	defer rec.mu.Unlock()
+	c := rec.byID[id]
+	delete(rec.byID, id)
+	return c
+}
+
+func (rec *recorder) observe(res any, herr error) string { return observeCalls(rec.calls, rec, res, herr) }
+
+func observeCalls(calls [][]string, rec *recorder, res any, herr error) string {
+	if len(calls) == 0 {
 		if herr == nil {
 			return "NOCALL-NOERROR"
 		}
@@ -153,7 +178,7 @@ func (rec *recorder) observe(res any, herr error) string {
 			e = fmt.Sprintf("other%d", int(jrpc2.ErrorCode(herr)))
 		}
 	}
-	return fmt.Sprintf("C%d:%s|%s|%s", len(rec.calls), strings.Join(rec.calls[0], ","), r, e)
+	return fmt.Sprintf("C%d:%s|%s|%s", len(calls), strings.Join(calls[0], ","), r, e)
 }
 
 func classifyCheckErr(err error) string {
@@ -278,45 +303,58 @@ func applyOpts(fi *handler.FuncInfo, opts string) {
 	}
 }
 
-func c15W(w *caseWriter, fnS, opts, ret, rawhex string) {
+func c15Case(fnS, opts, ret string) *hcase {
 	fd := parseFn(fnS)
-	raw := unhexf(rawhex)
-	view := viewOf(raw)
-	rec := &recorder{}
-	var fnv any
-	if p := guard(func() { fnv = makeFn(fd, rec, ret == "1") }); p != "" {
-		return
-	}
-	obs := ""
-	if p := guard(func() {
-		fi, err := handler.Check(fnv)
-		if err != nil {
-			obs = "err:" + classifyCheckErr(err)
-			return
-		}
-		applyOpts(fi, opts)
-		h := fi.Wrap()
-		rec.req = mkRequest(raw)
-		res, herr := h(context.Background(), rec.req)
-		obs = rec.observe(res, herr)
-	}); p != "" {
-		obs = "X:" + hexf(p)
-	}
-	oracle := "-"
-	if fd.kind == 'F' && len(fd.ins) == 2 && !(fd.ins[1].k == 'P' && fd.ins[1].elem.k == 'q') {
-		if p := guard(func() {
+	return &hcase{
+		kind: "W", in: []string{fnS, opts, ret},
+		mk: func(rec *recorder) any { return makeFn(fd, rec, ret == "1") },
+		wrap: func(fnv any) (jrpc2.Handler, string) {
+			fi, err := handler.Check(fnv)
+			if err != nil {
+				return nil, "err:" + classifyCheckErr(err)
+			}
+			applyOpts(fi, opts)
+			return fi.Wrap(), ""
+		},
+		oracle: func(view pview, raw string) string {
+			if !(fd.kind == 'F' && len(fd.ins) == 2 && !(fd.ins[1].k == 'P' && fd.ins[1].elem.k == 'q')) {
+				return "-"
+			}
 			arg := fd.ins[1]
-			oracle = c15Oracle(arg, view, raw, false)
+			oracle := c15Oracle(arg, view, raw, false)
 			if ok, names, _ := docFields(arg); ok {
 				if ents := translatedOracle(buildType(arg.pointee()), names, view, false); ents != nil {
 					oracle += "&" + strings.Join(ents, "&")
 				}
 			}
-		}); p != "" {
-			oracle = "-"
-		}
+			return oracle
+		},
 	}
-	w.line("W", fnS, opts, ret, rawhex, view.String(), oracle, obs)
+}
+
+func c15W(w *caseWriter, fnS, opts, ret, rawhex string) { c15Case(fnS, opts, ret).single(w, rawhex) }
+
+// seqGroups replays Ws / Ps lines: consecutive lines of one group go to one handler.
+func seqGroups(lines [][]string, nin int, mk func(in []string) *hcase, w *caseWriter) {
+	for i := 0; i < len(lines); {
+		gid := strings.SplitN(lines[i][1], ".", 2)[0]
+		j := i
+		var raws []string
+		for j < len(lines) && strings.SplitN(lines[j][1], ".", 2)[0] == gid {
+			raws = append(raws, lines[j][2+nin])
+			j++
+		}
+		var g int
+		fmt.Sscanf(gid, "%d", &g)
+		mk(lines[i][2:2+nin]).sequence(w, g, raws)
+		i = j
+	}
+}
+
+func atoi(s string) int {
+	var n int
+	fmt.Sscanf(s, "%d", &n)
+	return n
 }
 
 // ---- generators ---------------------------------------------------------------
@@ -575,8 +613,11 @@ func regNode(v any) *tnode { return registry[registryIndex[reflect.TypeOf(v)]].n
 
 func runC15(cfg *config) {
 	w := newCaseWriter(cfg.out)
+	progressPath = cfg.out + ".progress"
+	clearProgress()
 	defer w.close()
 	if cfg.replay != "" {
+		var seq [][]string
 		for _, l := range readLines(cfg.replay) {
 			f := strings.Split(l, "\t")
 			switch {
@@ -584,8 +625,13 @@ func runC15(cfg *config) {
 				c15K(w, f[1])
 			case f[0] == "W" && len(f) >= 5:
 				c15W(w, f[1], f[2], f[3], f[4])
+			case f[0] == "Ws" && len(f) >= 6:
+				seq = append(seq, f)
+			case f[0] == "Wc" && len(f) >= 8:
+				c15Case(f[1], f[2], f[3]).concurrent(w, atoi(f[4]), atoi(f[5]), atoi(f[6]), strings.Split(f[7], ","))
 			}
 		}
+		seqGroups(seq, 3, func(in []string) *hcase { return c15Case(in[0], in[1], in[2]) }, w)
 		return
 	}
 	r := seedRng(cfg.seed)
@@ -630,6 +676,54 @@ func runC15(cfg *config) {
 				}
 				c15W(w, fnS, o, fmt.Sprint(r.intn(2)), hexf(p))
 			}
+		}
+	}
+	// ---- one handler value, many requests: in sequence and concurrently ----
+	gid := 0
+	nconc := 0
+	maxConc := 70
+	iters := 250
+	if cfg.tier == "thorough" {
+		maxConc, iters = 400, 600
+	}
+	procsCycle := []int{16, 4, 8, 2, 1, 12}
+	paths := []string{"uu", "tu", "uf", "tf"}
+	for fi, fd := range fns {
+		if fd.kind != 'F' || len(fd.ins) != 2 || fd.variadic || (fd.ins[1].k == 'P' && fd.ins[1].elem.k == 'q') {
+			continue
+		}
+		fnS := fd.String()
+		arg := fd.ins[1]
+		isStruct, names, types := docFields(arg)
+		if !isStruct {
+			names, types = nil, nil
+		}
+		for _, opts := range paths {
+			if cfg.tier != "thorough" && !r.chance(1, 2) {
+				continue
+			}
+			hc := c15Case(fnS, opts, fmt.Sprint(r.intn(2)))
+			if isStruct {
+				for _, s := range stateProbes(r, names, types, opts[1] != 'f') {
+					hc.sequence(w, gid, hexAll(s))
+					gid++
+				}
+			}
+			ps := paramsFor(r, arg, "quick")
+			var s []string
+			for c := 0; c < 6; c++ {
+				s = append(s, pick(r, ps))
+			}
+			hc.sequence(w, gid, hexAll(s))
+			gid++
+		}
+		// concurrency: every wrapper path (plain, strict, array, strict+array) of this function
+		if nconc < maxConc && (fi < len(c15Corpus)+2*len(registry) || r.chance(1, 4)) {
+			for pi, opts := range paths {
+				texts := concTexts(names, types, isStruct && opts[1] != 'f', arg.pointee(), 12)
+				c15Case(fnS, opts, "0").concurrent(w, 8, iters, procsCycle[(nconc+pi)%len(procsCycle)], hexAll(texts))
+			}
+			nconc++
 		}
 	}
 }
